@@ -217,19 +217,19 @@ func genNearValue(t *rapid.T, d D) D {
 	if m.Class != ref.Finite {
 		return d
 	}
-	c := new(big.Int).Add(m.Coef, bi(int64(rapid.IntRange(-1, 1).Draw(t, "du"))))
+	c := new(big.Int).Add(m.Coef, bi(int64(ir(t, -1, 1, "du"))))
 	if c.Sign() < 0 || c.Cmp(ref.Cmax) > 0 {
 		c = m.Coef
 	}
 	neg := m.Neg
-	if rapid.IntRange(0, 9).Draw(t, "flipSign") == 0 {
+	if ir(t, 0, 9, "flipSign") == 0 {
 		neg = !neg
 	}
 	return DFin(neg, c, m.Exp)
 }
 
 func genOrderTriple(t *rapid.T) (D, D, D) {
-	switch rapid.IntRange(0, 9).Draw(t, "tripleKind") {
+	switch ir(t, 0, 9, "tripleKind") {
 	case 0:
 		return genAny(t), genAny(t), genAny(t)
 	case 1:
@@ -239,22 +239,22 @@ func genOrderTriple(t *rapid.T) (D, D, D) {
 		x := genFiniteNZ(t)
 		if rapid.Bool().Draw(t, "manyZeros") {
 			// values with many trailing zeros have large cohorts (gaps up to 34)
-			n := rapid.IntRange(1, 12).Draw(t, "len")
+			n := ir(t, 1, 12, "len")
 			x = DFin(genSign(t), genDigits(t, n), genExp(t))
 		}
 		return x, genNearValue(t, x), genNearValue(t, x)
 	case 7:
 		// zeros, infinities, NaNs mixed with a finite value
 		pool := []D{genZero(t), genZero(t), genSpecial(t), genSpecial(t), genFinite(t)}
-		i := rapid.IntRange(0, 4).Draw(t, "i")
-		j := rapid.IntRange(0, 4).Draw(t, "j")
-		k := rapid.IntRange(0, 4).Draw(t, "k")
+		i := ir(t, 0, 4, "i")
+		j := ir(t, 0, 4, "j")
+		k := ir(t, 0, 4, "k")
 		return pool[i], pool[j], pool[k]
 	case 8:
 		// same coefficient digits, exponent shifted: magnitude comparison by length
 		x := genFiniteNZ(t)
 		nx := x.Num()
-		y := DFin(nx.Neg, genCoef(t), clampExp(nx.Exp+ref.DecLen(nx.Coef)-rapid.IntRange(1, 35).Draw(t, "ylen")))
+		y := DFin(nx.Neg, genCoef(t), clampExp(nx.Exp+ref.DecLen(nx.Coef)-ir(t, 1, 35, "ylen")))
 		return x, y, genNearValue(t, y)
 	}
 	x := genFinite(t)
